@@ -358,7 +358,7 @@ fn fields(ctx: &Ctx) -> Vec<RCase> {
 }
 
 fn text_fields(_: &Ctx) -> Vec<RCase> {
-    text_field_cases(registry(), &[("cfg", b"\t<>"), ("exl", b","), ("patchlist-boot", b"\t:"), ("patchlist-game", b"\t,:")])
+    text_field_cases(registry(), &[("cfg", b"\t<>"), ("exl", b","), ("patchlist-boot", b"\t: "), ("patchlist-game", b"\t,: ")])
 }
 
 fn case_mapping(ctx: &Ctx) -> Vec<RCase> {
@@ -410,7 +410,19 @@ fn log_tables(ctx: &Ctx) -> Vec<RCase> {
 /// Well-formed files at the upper end of the quantifier's size (1 MiB) made of as many distinct small records as fit:
 /// work that grows faster than the input (a scan per record, a copy per record) crosses the CPU budget here.
 fn scale(_: &Ctx) -> Vec<RCase> {
-    const MAX: usize = 1 << 20;
+    scale_at(1 << 20)
+}
+
+fn growth(_: &Ctx) -> Vec<GrowthCase> {
+    growth_cases(scale_at(1 << 20), scale_at(1 << 19))
+}
+
+fn prop_growth(c: &GrowthCase, ctx: &Ctx) -> PResult {
+    run_growth(registry(), c, ctx)
+}
+
+#[allow(non_snake_case)]
+fn scale_at(MAX: usize) -> Vec<RCase> {
     let b36 = |mut n: usize| {
         let mut s = vec![];
         loop {
@@ -547,6 +559,15 @@ fn io_faults(_: &Ctx) -> Vec<RCase> {
         c.note = format!("io:unwritable-target: {} where the target file name is an existing directory", name);
         v.push(c);
     }
+    // the same blocked targets behind an APLY chunk (ignore-missing / ignore-old-mismatch set to 1, as retail patches
+    // carry them): a directory sitting where the file has to go is not a missing file
+    for (name, cmd) in &cmds {
+        for option in [1u32, 2] {
+            let mut c = RCase::explicit("zipatch", "io:unwritable-target", vec![head(vec![zp::aply(option, 1), cmd.clone()]), dat_dir.clone(), vec![0]]).expect_err();
+            c.note = format!("io:unwritable-target: APLY option {} = 1, then {} where the target file name is an existing directory", option, name);
+            v.push(c);
+        }
+    }
     // AddFile: parent is a regular file; target is an existing directory
     let addfile = zp::file_op(b'A', 0, 13, 0, "boot/readme.txt", &[blk.clone()]);
     let mut c = RCase::explicit("zipatch", "io:unwritable-target", vec![head(vec![addfile.clone()]), pack_files(&[("boot".to_string(), b"file".to_vec())]), vec![0]]).expect_err();
@@ -661,7 +682,7 @@ fn post(_: &Ctx) {
 pub fn property() -> Property {
     Property {
         id: "C17",
-        rule: "cases = (entry point, valid seed file, corruption) executed in an isolated worker process. Entry points: ConfigFile, EXL, FileInfo (from_existing and new), CharacterData, GearSets, ChatLog, PatchList (boot and game) from_string+to_string, ZiPatch::apply on a scratch tree, extract_frontier_url, BootData (+apply_patch), Blowfish on arbitrary data; values that parse are also written back / queried. Seeds: repository fixtures, output of the C03/C08/C09/C10 generators for fixed internal seeds, hand-built chat logs and launcher executables. Corruptions: every truncation point; every offset x width {1,2,4,8} x value {0, 1, 0x7F.., 0x80.., 0xFF.., +1, -1} x byte order; random compositions of truncate/field/bit-flip/byte/insert (incl. invalid UTF-8, NUL, line structure)/remove/duplicate/copy-range/append; random blobs up to 1 MiB behind intact magic; text formats with characters whose case mapping changes their UTF-8 length at every line start, and at the start of the text combined with every truncation / a two-byte character at every offset; well-formed 1 MiB files made of as many distinct small records as fit (cfg categories / keys, exl rows, patch-list entries and hashes, file-info records) against the CPU budget; chat logs of 16 / 1000 / 20 000 (90 000 thorough) entries with sorted, descending, zig-zag, constant, swapped and shuffled offset tables; I/O fault recipes (missing path, path of the wrong kind, unwritable targets for every patch command, commands before target info, patch streams ending early). Oracle: worker outcome must be value or ordinary failure -- no panic, abort, stack overflow, more than 10 s CPU, or live heap above max(64 MiB, 256 x input); a patch stream without its end-of-file chunk, with an unwritable target, with a chunk tag / SQPK command letter / file-operation letter / header-update kind that names nothing (sizes intact), or with a deflated AddFile block whose stream an independent inflater (miniz_oxide) cannot decode within the declared size (every stream byte of every deflated block of the seed patches xor 0x01 / 0x20 / 0xFF) must return Err. Non-trivial: input differs from the seed, is non-empty and keeps the seed's magic; distinct by hash of (entry, arguments).",
+        rule: "cases = (entry point, valid seed file, corruption) executed in an isolated worker process. Entry points: ConfigFile, EXL, FileInfo (from_existing and new), CharacterData, GearSets, ChatLog, PatchList (boot and game) from_string+to_string, ZiPatch::apply on a scratch tree, extract_frontier_url, BootData (+apply_patch), Blowfish on arbitrary data; values that parse are also written back / queried. Seeds: repository fixtures, output of the C03/C08/C09/C10 generators for fixed internal seeds, hand-built chat logs and launcher executables. Corruptions: every truncation point; every offset x width {1,2,4,8} x value {0, 1, 0x7F.., 0x80.., 0xFF.., +1, -1} x byte order; random compositions of truncate/field/bit-flip/byte/insert (incl. invalid UTF-8, NUL, line structure)/remove/duplicate/copy-range/append; random blobs up to 1 MiB behind intact magic; text formats with characters whose case mapping changes their UTF-8 length at every line start, and at the start of the text combined with every truncation / a two-byte character at every offset; well-formed 1 MiB files made of as many distinct small records as fit (cfg categories / keys, exl rows, patch-list entries and hashes, file-info records) against the CPU budget, and each of them against itself at half size (at least 1 s of CPU and more than 3.2 times the half-size time = work growing faster than the input); chat logs of 16 / 1000 / 20 000 (90 000 thorough) entries with sorted, descending, zig-zag, constant, swapped and shuffled offset tables; I/O fault recipes (missing path, path of the wrong kind, unwritable targets for every patch command, commands before target info, patch streams ending early). Oracle: worker outcome must be value or ordinary failure -- no panic, abort, stack overflow, more than 10 s CPU, or live heap above max(64 MiB, 256 x input); a patch stream without its end-of-file chunk, with an unwritable target, with a chunk tag / SQPK command letter / file-operation letter / header-update kind that names nothing (sizes intact), or with a deflated AddFile block whose stream an independent inflater (miniz_oxide) cannot decode within the declared size (every stream byte of every deflated block of the seed patches xor 0x01 / 0x20 / 0xFF) must return Err. Non-trivial: input differs from the seed, is non-empty and keeps the seed's magic; distinct by hash of (entry, arguments).",
         assumptions: &["Blowfish keys are 8..56 bytes (caller-chosen, not untrusted input; the key schedule reads the first 8 bytes)", "PatchList::from_string takes &str: arbitrary bytes are converted lossily to text first", "files a case writes are capped at 16 MiB by RLIMIT_FSIZE (reported to the library as an I/O error)", "wall-clock time is not judged; the CPU budget is 10 s per case"],
         pre: Some(pre),
         parts: vec![
@@ -671,6 +692,7 @@ pub fn property() -> Property {
             Box::new(Part { name: "unknown-commands", driver: Driver::Enum(unknown_commands), prop, exhaustive: true }),
             Box::new(Part { name: "damaged-blocks", driver: Driver::Enum(damaged_blocks), prop, exhaustive: true }),
             Box::new(Part { name: "scale", driver: Driver::Enum(scale), prop, exhaustive: true }),
+            Box::new(Part { name: "scale-growth", driver: Driver::Enum(growth), prop: prop_growth, exhaustive: true }),
             Box::new(Part { name: "log-tables", driver: Driver::Enum(log_tables), prop, exhaustive: true }),
             Box::new(Part { name: "case-mapping", driver: Driver::Enum(case_mapping), prop, exhaustive: true }),
             Box::new(Part { name: "text-fields", driver: Driver::Enum(text_fields), prop, exhaustive: true }),
